@@ -14,6 +14,8 @@ Case (one line of key=value tokens):
  pos=   positional argument values joined by ',' or '-'         kw= name:value joined by ',' or '-'
         values: i<k> int, s<k> str, n None, t tuple, o an object
  out=   r:<value> | e:V | e:K | e:C | e:B     (ValueError, KeyError, custom Exception, custom BaseException)
+        e:T | e:X | e:I   TimeoutError, concurrent.futures.CancelledError / InvalidStateError: the three classes that
+                          asyncio re-creates when it copies an executor future into a loop future
  leak=  v > 0: the function enters ctx.updated(A(v)) and never leaves it      rec= k > 0: the function records M(k)
  block= 1: the function blocks its thread until a heartbeat task on the loop has made progress (asynchronous only)
  doc=   1/0: the function has a docstring
@@ -145,12 +147,19 @@ class Values:
         if isinstance(v, dict) or hasattr(v, "items"):
             return "{" + ",".join(f"{k}:{self.show(x)}" for k, x in v.items()) + "}"
         if isinstance(v, BaseException):
-            return "e:" + type(v).__name__
+            return "e:" + class_name(type(v))
         return "self" if type(v).__name__ == "Holder" else "obj"
 
 
+def class_name(cls) -> str:
+    mod = cls.__module__.split(".")[0]
+    return cls.__name__ if mod in ("builtins", "harness", "__main__") else f"{mod}.{cls.__name__}"
+
+
 def make_exc(tok: str):
-    return {"V": ValueError("v"), "K": KeyError("k"), "C": Custom("c", 7), "B": BaseBoom("b")}[tok]
+    return {"V": ValueError("v"), "K": KeyError("k"), "C": Custom("c", 7), "B": BaseBoom("b"),
+            "T": TimeoutError("t"), "X": concurrent.futures.CancelledError("x"),
+            "I": concurrent.futures.InvalidStateError("i")}[tok]
 
 
 class _Capture(logging.Handler):
@@ -322,8 +331,8 @@ def show_outcome(env: Env, result, exc) -> str:
         return f"r:{env.values.show(result)}:{int(result is env.returned and env.bind != '-')}"
     same = "-" if env.raised is None else str(int(exc is env.raised))
     msg = str(exc.args[0]) if exc.args else ""
-    msg = msg.replace(" ", "_").replace("|", "/")[:80]
-    return f"e:{type(exc).__name__}:{msg}:{same}"
+    msg = msg.replace(" ", "_").replace("|", "/").replace(":", ";")[:80]
+    return f"e:{class_name(type(exc))}:{msg}:{same}"
 
 
 def run_real(case: str) -> str:
@@ -372,7 +381,7 @@ def run_real(case: str) -> str:
                     return "-" if x is MISSING else show(x)
 
                 at = f"{part(a.args)};{part(a.kwargs)}" if a is not None else "-"
-                rt = ("e:" + type(r.result).__name__ if isinstance(r.result, BaseException) else "r:" + show(r.result)) \
+                rt = ("e:" + class_name(type(r.result)) if isinstance(r.result, BaseException) else "r:" + show(r.result)) \
                     if r is not None else "-"
                 mt = ".".join(map(str, m.ks)) if m is not None else ""
                 cells["root"] = f"A={at} R={rt} M={mt}"
@@ -520,6 +529,17 @@ def expected_trace_args(d: dict) -> str:
     return f"{pos};{kw}"
 
 
+CONVERTED = {"concurrent.CancelledError": "asyncio.CancelledError", "TimeoutError": "TimeoutError",
+             "concurrent.InvalidStateError": "asyncio.InvalidStateError"}
+
+
+def converted_by_asyncio(dout: str) -> str:
+    p = dout.split(":")
+    if len(p) == 4 and p[0] == "e" and p[1] in CONVERTED and p[3] == "1":
+        return f"e:{CONVERTED[p[1]]}:{p[2]}:0"
+    return dout
+
+
 def monitor(case: str, out: str) -> list[str]:
     try:
         d = parse(case)
@@ -542,7 +562,11 @@ def monitor(case: str, out: str) -> list[str]:
     if o_out == "hang":
         return fails + ["wrap.call-never-returns"]
     if o_out != dout:
-        fails.append("wrap.transparent.result")
+        if deco.startswith("asyn") and o_out == converted_by_asyncio(dout):
+            # the executor future is copied into a loop future by asyncio (`_convert_future_exc`)
+            fails.append("wrap.transparent.exception-converted")
+        else:
+            fails.append("wrap.transparent.result")
     if o_bind != dbind:
         fails.append("wrap.transparent.arguments")
     state, label = site_fp(d)
@@ -577,7 +601,7 @@ def monitor(case: str, out: str) -> list[str]:
 # generation
 
 VALS = ["i1", "i2", "i7", "s3", "n", "t", "o"]
-OUTS = ["r:i1", "r:s4", "r:n", "r:t", "r:o", "e:V", "e:K", "e:C", "e:B"]
+OUTS = ["r:i1", "r:s4", "r:n", "r:t", "r:o", "e:V", "e:K", "e:C", "e:B", "e:T", "e:X", "e:I"]
 
 
 def gen_args(rng, sig: int, fit: bool):
@@ -656,7 +680,7 @@ def generate(rng, tier):
     for deco in DECOS_CALL + DECOS_META:
         for _ in range(6 if tier == "quick" else 40):
             yield gen_case(rng, deco)
-    for _ in range(1400 if tier == "quick" else 80000):
+    for _ in range(6000 if tier == "quick" else 100000):
         yield gen_case(rng)
 
 
@@ -675,6 +699,12 @@ def corpus():
         f"deco=traced_a form=meth {base} out=e:V leak=9 rec=4",
         "deco=traced_s form=fn root=1 site=a1.w0.u3 sig=2 pos=- kw=- out=r:i1",   # TypeError from the call is traced and re-raised
         "deco=traced_s form=fn root=0 site=- sig=1 pos=- kw=- out=r:n",
+        # known finding: asyncio re-creates these three exception classes between the executor and the awaiting task
+        f"deco=asyn form=fn {base.replace('out=r:i2', 'out=e:T')}",
+        f"deco=asyn_ex form=meth {base.replace('out=r:i2', 'out=e:X')}",
+        f"deco=asyn form=fn {base.replace('out=r:i2', 'out=e:I')}",
+        f"deco=wasync_s form=fn {base.replace('out=r:i2', 'out=e:T')}",      # ... and only there
+        f"deco=traced_s form=fn {base.replace('out=r:i2', 'out=e:X')}",
     ] + [f"deco={m} form={f} doc={dc}" for m in DECOS_META for f in ("fn", "meth") for dc in "10"]
 
 
@@ -702,7 +732,7 @@ def classify(case: str, out: str):
     yield "root:" + d["root"]
     parts = out.split("|")
     if len(parts) == 7:
-        yield "outcome:" + ":".join(parts[0].split(":")[:2]) if parts[0].startswith("e:") else "outcome:value"
+        yield ("outcome:" + ":".join(parts[0].split(":")[:2])) if parts[0].startswith("e:") else "outcome:value"
         yield "body:" + ("ran" if parts[1] != "-" else "not-bound")
     for k in ("leak", "rec", "block"):
         if d[k] != "0":
